@@ -306,7 +306,11 @@ func (p *Program) cellTerm(a *ssa.Alloc, v ssa.Value, busy map[ssa.Value]bool, d
 		alts = append(alts, p.termOf(s, busy, depth+1))
 	}
 	if len(alts) == 0 {
-		// zero value of the cell (only field stores, or never stored)
+		// a struct built field by field (composite literal): describe its content
+		if st := p.structTerm(a, busy, depth); st != nil {
+			return st
+		}
+		// zero value of the cell (never stored)
 		return mk("alloc", typeStr(a.Type()), a)
 	}
 	return oneOf("cell", v, alts)
@@ -577,6 +581,10 @@ func (t *Term) Render(hook func(t *Term, rec func(*Term) string) (string, bool))
 		s = "µ"
 	case "list":
 		s = "[" + argstr() + "]"
+	case "struct":
+		s = t.Name + "{" + argstr() + "}"
+	case "fieldval":
+		s = t.Name + ":" + rec(t.Args[0])
 	case "LT", "EQ":
 		s = t.Op + "(" + argstr() + ")"
 	default:
@@ -807,4 +815,37 @@ func RetVal(r *ssa.Return, i int) ssa.Value {
 		}
 	}
 	return v
+}
+
+// structTerm describes a locally built struct by the values stored into its fields.
+func (p *Program) structTerm(a *ssa.Alloc, busy map[ssa.Value]bool, depth int) *Term {
+	_, byField := p.storesTo(a)
+	if len(byField) == 0 {
+		return nil
+	}
+	names := make([]string, 0, len(byField))
+	for n := range byField {
+		names = append(names, n)
+	}
+	sort.Strings(names)
+	t := &Term{Op: "struct", Name: typeStr(deref(a.Type())), V: a}
+	for _, n := range names {
+		var alts []*Term
+		for _, v := range byField[n] {
+			alts = append(alts, p.termOf(v, busy, depth+1))
+		}
+		ft := oneOf("cell", a, alts)
+		t.Args = append(t.Args, &Term{Op: "fieldval", Name: n, V: a, Args: []*Term{ft}})
+	}
+	return t
+}
+
+// ContentTerm: like TermOf, but a pointer to a freshly built struct is described by the struct's content.
+func (p *Program) ContentTerm(v ssa.Value) *Term {
+	if a, ok := v.(*ssa.Alloc); ok {
+		if st := p.structTerm(a, map[ssa.Value]bool{}, 0); st != nil {
+			return st
+		}
+	}
+	return p.TermOf(v)
 }
